@@ -242,29 +242,55 @@ def r11_4(chk, P):
 
 
 def r11_5(chk, P):
-    chk.rule('R11.5', 'in vorbis_synthesis_blockin the reset of the running granule position (granulepos = -1) and of the running '
-             'sample count (sample_count = -1) are controlled by the same conditions: a sequence gap forgets both')
+    chk.rule('R11.5', 'a break in the packet sequence forgets both running counters, an unbroken sequence keeps both: '
+             'vorbis_synthesis_blockin is interpreted (K4) in three calling contexts given as constants -- first block '
+             '(sequence == -1), gap (block number is not the successor), in sequence -- with marker values in the running '
+             'granule position and the running sample count and a block that carries no position.  At every return after a '
+             'first block or a gap the granule position is -1 and the sample count holds nothing of the marker (it restarts at 0); '
+             'at every return of an in-sequence block both still hold at least their markers')
+    import absint
+    from absint import V, K
     F = P.need('vorbis_synthesis_blockin')
-    sk = k8.Skel(P, 'r')
+    MS, MG = 10 ** 6, 10 ** 12
+    chk.require(F.params and F.params[0].get('record') == 'vorbis_dsp_state', 'vorbis_synthesis_blockin: first parameter is not the dsp state')
+    root = f'v{F.params[0]["id"]}->'
+    for recf in (('vorbis_dsp_state', 'sequence'), ('vorbis_block', 'sequence'), ('private_state', 'sample_count'),
+                 ('vorbis_dsp_state', 'granulepos'), ('vorbis_block', 'granulepos')):
+        P.field(*recf)
 
-    def resets(field):
-        out = []
-        for n in F.pos:
-            nd = F.ex[n]
-            if nd['k'] == 'assign' and nd['op'] == '=' and common.const_val(F, nd['c'][1]) == -1:
-                l = F.ex[F.strip_casts(nd['c'][0])]
-                if l['k'] == 'member' and l['field'] == field:
-                    out.append(n)
+    def last(env, suffix, dflt):
+        hit = [v for k_, v in env.items() if isinstance(k_, str) and k_.startswith(root) and k_.endswith(suffix) and isinstance(v, V)]
+        if not hit:
+            return dflt
+        out = hit[0]
+        for x in hit[1:]:
+            out = absint.join(out, x)
         return out
-    g, s = resets('granulepos'), resets('sample_count')
-    chk.require(g and s, 'reset stores not found in vorbis_synthesis_blockin')
-
-    def cs(n):
-        return sorted(('' if p else '!') + sk.canon(F, c) for c, p in common.controlling_conditions(F, n))
-    cg = sorted(cs(n) for n in g)
-    c_s = sorted(cs(n) for n in s)
-    chk.ob('R11.5', F.name, 'sequence-gap-resets-both-counters', cg == c_s, F.where(g[0]),
-           f'granulepos=-1 under {cg}; sample_count=-1 under {c_s}')
+    for ctx, vs, bs in (('first-block', -1, 9), ('gap', 5, 9), ('in-sequence', 5, 6)):
+        finv = {('vorbis_dsp_state', 'sequence', False): K(vs), ('vorbis_block', 'sequence', False): K(bs),
+                ('private_state', 'sample_count', False): K(MS), ('vorbis_dsp_state', 'granulepos', False): K(MG),
+                ('vorbis_block', 'granulepos', False): K(-1), ('vorbis_block', 'eofflag', False): K(0),
+                ('codec_setup_info', 'blocksizes', True): V(64, 8192)}
+        A = absint.Analyzer(P, F, field_inv=finv)
+        A.run()
+        rets = [(e, env, v) for (e, env, v) in A.ret_states if v is not None and v.lo <= 0 <= v.hi]
+        chk.require(rets, 'vorbis_synthesis_blockin has no success return')
+        sc = gp = None
+        for (e, env, v) in rets:
+            x = last(env, '->sample_count', K(MS))
+            y = last(env, '->granulepos', K(MG))
+            sc = x if sc is None else absint.join(sc, x)
+            gp = y if gp is None else absint.join(gp, y)
+        if ctx == 'in-sequence':
+            ok_s, ok_g = sc.lo >= MS, gp.lo >= MG
+            want = 'kept'
+        else:
+            ok_s, ok_g = sc.hi < MS and sc.lo >= -1, gp.lo == -1 and gp.hi == -1
+            want = 'forgotten'
+        chk.ob('R11.5', F.name, f'{ctx}:sample-count-{want}', ok_s, F.where(rets[0][0]),
+               f'running sample count {MS} on entry, {sc} at the success returns')
+        chk.ob('R11.5', F.name, f'{ctx}:granule-position-{want}', ok_g, F.where(rets[0][0]),
+               f'running granule position {MG} on entry (block without a position), {gp} at the success returns')
 
 
 def run(chk, P):
@@ -279,6 +305,7 @@ def run(chk, P):
     r11_4(chk, P)
     chk.floor('R11.4', 2)
     r11_5(chk, P)
+    chk.floor('R11.5', 6)
     r11_6(chk, P, E)
     chk.floor('R11.6', 3)
     chk.trusted += ['clang 14 front end', 'K3 effect table for libc/libogg', 'type-based heap classes (one per record pointer field)']
